@@ -23,10 +23,13 @@ func init() {
 	core.Register(&core.Property{
 		ID: "C13",
 		Rule: "resultsets of 0–24 columns over every column type code (0x00–0x13, 0xf5–0xff and unknown codes) with random flag words, 1–3 rows; " +
-			"cells drawn from per-type boundary lists (integer extremes ±1 per width and signedness, zero/partial/out-of-calendar dates, fractions of 1–10 digits, " +
-			"times ±838:59:59.999999, >24h, -0, decimals with trailing zeros/exponents/19+ digits, strings of 0/250/251/252/65535/65536 (thorough: up to 300000) bytes) plus random valid values and out-of-domain spellings; " +
-			"NULL in every column position; a malformed stream (truncated rows, trailing bytes, non-minimal and invalid length prefixes); " +
-			"AppendBinaryValue on every dynamic value kind × every field type; non-trivial = the implementation produced binary rows",
+			"cells drawn from per-type boundary lists (integer extremes ±1 per width and signedness and values beyond the width, zero/partial/out-of-calendar dates and datetimes with and without fractions, fractions of 1–10 digits, " +
+			"times ±838:59:59.999999, >24h, -0, decimals with trailing zeros/exponents/19+ digits) plus random valid values and out-of-domain spellings; " +
+			"byte strings of 0/1/250/251/252/255/256/65535/65536 (thorough: up to 300000) bytes with NUL and non-UTF-8 bytes in every byte-string type, and of 16777215/16777216 (thorough: up to 32 MiB) bytes through theorem big_cell_row (request kind big); " +
+			"NULL in every column position for 0–23 columns; a malformed stream (truncated rows, trailing bytes, non-minimal and invalid length prefixes); " +
+			"AppendBinaryValue on every dynamic value kind × every field type; " +
+			"whole COM_STMT_EXECUTE results over the wire (request kind wire): a scripted backend sends column-definition packets (random names incl. empty/250+/non-UTF-8, character sets, lengths, decimals, every type and flag word; 1–300 columns; malformed, truncated, COM_FIELD_LIST-style and non-minimal definitions) and text rows, DirectConnection.Execute reads them, Session.writeResponse sends the binary result, the packets the client receives are compared; " +
+			"non-trivial = the implementation produced binary rows",
 		Generate: genC13,
 		Exec:     execC13,
 		Trivial: func(in core.Sexp, out string) bool {
@@ -37,6 +40,8 @@ func init() {
 			"strconv.ParseInt/ParseUint/Itoa, time.Parse (three layouts), shopspring/decimal NewFromString/String and math/big's decimal conversion are modelled from their sources, validated by this correspondence, not verified",
 			"the spec decoder BinProto.decodeBinRow is this project's reading of the MySQL binary resultset row format (NEWDATE read like DATE, as go-sql-driver and Gaea's own ParseBinary do)",
 			"decimals are compared numerically (1.50 and 1.5 are the same value)",
+			"the backend speaks the MySQL protocol towards the proxy: no zero-length packet and no row starting with 0xff inside a result set; column definitions are quantified in the theorems as the packets a server sends (minimal length prefixes, no default value); FieldData.Parse panics on a definition whose fixed-length part is cut short (modelled as such, outside the property)",
+			"request kind big: the driver answers from theorem C13.big_cell_row instead of running the list-based model on a 16 MiB cell (for lengths ≤ 70000 it runs both and insists that they agree)",
 		},
 	})
 }
@@ -61,6 +66,8 @@ func c13ErrKind(err error) string {
 		return "parse-decimal"
 	case strings.HasPrefix(m, "row ") && strings.Contains(m, "columns not equal"):
 		return "col-count"
+	case strings.HasPrefix(m, "row ") && strings.Contains(m, "is out of range for field type"):
+		return "int-range"
 	case strings.HasPrefix(m, "invalid TypeDatetime"), strings.HasPrefix(m, "invalid TypeTimestamp"):
 		return "datetime"
 	case strings.HasPrefix(m, "invalid TypeDuration"):
@@ -109,6 +116,10 @@ func execC13(in core.Sexp) string {
 			parts = append(parts, core.Hex(rd).String())
 		}
 		return "(" + strings.Join(parts, " ") + ")"
+	case "wire":
+		return execC13Wire(in)
+	case "big":
+		return execC13Big(uint8(in.Nth(1).Uint()), uint16(in.Nth(2).Uint()), int(in.Nth(3).Uint()))
 	case "abv":
 		ty := uint8(in.Nth(1).Uint())
 		gv := in.Nth(2)
@@ -195,6 +206,64 @@ func c13Abv(ty uint8, v interface{}) string {
 		return "(prefix-changed)"
 	}
 	return "(ok " + core.Hex(out[2:]).String() + ")"
+}
+
+// c13PatCell is BinRowBig.patCell: byte i is (i*7+3)%256 xor (i/512)%256.
+func c13PatCell(n int) []byte {
+	b := make([]byte, n)
+	for i := range b {
+		b[i] = byte((i*7+3)%256) ^ byte((i/512)%256)
+	}
+	return b
+}
+
+// execC13Big converts a row of one pattern cell of n bytes and the sentinel
+// INT 7 and reports the binary row as (bytes before the cell, length, FNV-1a
+// hash, bytes after it); the length prefix is read by a reader of its own.
+func execC13Big(ty uint8, flag uint16, n int) string {
+	fields := []*mysql.Field{{Type: ty, Flag: flag}, {Type: mysql.TypeLong}}
+	cell := c13PatCell(n)
+	row := c13AppendCell(make([]byte, 0, n+16), cell)
+	row = append(row, 1, '7')
+	v, err := mysql.RowData(row).ParseText(fields)
+	if err != nil {
+		return "(err " + c13ErrKind(err) + ")"
+	}
+	res := &mysql.Result{Resultset: &mysql.Resultset{Fields: fields, Values: [][]interface{}{v}}}
+	if err := res.BuildBinaryResultSet(); err != nil {
+		return "(err " + c13ErrKind(err) + ")"
+	}
+	if len(res.RowDatas) != 1 {
+		return "(row-count-differs)"
+	}
+	out := []byte(res.RowDatas[0])
+	if len(out) < 3 {
+		return "(garbled)"
+	}
+	pl, l := 0, 0
+	switch c := out[2]; {
+	case c < 251:
+		pl, l = 1, int(c)
+	case c == 0xfc && len(out) >= 5:
+		pl, l = 3, int(out[3])|int(out[4])<<8
+	case c == 0xfd && len(out) >= 6:
+		pl, l = 4, int(out[3])|int(out[4])<<8|int(out[5])<<16
+	case c == 0xfe && len(out) >= 11:
+		pl = 9
+		for k := 0; k < 8; k++ {
+			l |= int(out[3+k]) << (8 * uint(k))
+		}
+	default:
+		return "(garbled)"
+	}
+	if l < 0 || 2+pl+l > len(out) || len(out)-(2+pl+l) > 64 {
+		return "(garbled)"
+	}
+	h := uint64(14695981039346656037)
+	for _, b := range out[2+pl : 2+pl+l] {
+		h = (h ^ uint64(b)) * 1099511628211
+	}
+	return fmt.Sprintf("(ok %s %d %d %s)", core.Hex(out[:2+pl]).String(), l, h, core.Hex(out[2+pl+l:]).String())
 }
 
 // ---- generator ----
@@ -300,7 +369,10 @@ var c13Dates = []string{"2024-12-23", "0000-00-00", "2020-00-00", "2020-01-00", 
 	"2021-02-30", "2021-04-31", "2021-04-30", "2021-12-31", "1000-01-01", "9999-12-31", "0000-01-01", "2020-13-01", "2020-12-32", "2020-99-99", "2020-1-1", "2020-01-1", "invalid-date", "2020-01-02 00:00:00",
 	"", "20200102", "2020/01/02", "2020-01-02 ", " 2020-01-02", "+020-01-02", "-020-01-02", "2020-01-0a", "20a0-01-02", "2020-0a-02", "2020-01-02x", "2020-01:02", "2020:01-02", "12020-01-02"}
 
-var c13Datetimes = []string{"2024-12-23 10:20:30", "0000-00-00 00:00:00", "0000-00-00 00:00:00.000000", "0000-00-00 00:00:01", "2020-01-02 03:04:05.1", "2020-01-02 03:04:05.12", "2020-01-02 03:04:05.123",
+var c13Datetimes = []string{"2024-12-23 10:20:30", "0000-00-00 00:00:00", "0000-00-00 00:00:00.000000", "0000-00-00 00:00:01",
+	"0000-00-00 00:00:00.000001", "0000-00-00 00:00:00.5", "0000-00-00 00:00:00.999999", "0000-00-00 00:00:00.0", "0000-00-00 23:59:59", "0000-00-00 00:01:00", "0000-00-00 01:00:00",
+	"0000-00-01 00:00:00", "0000-01-00 00:00:00", "0001-00-00 00:00:00", "2021-02-30 10:11:12.5", "2021-02-30 10:11:12.123456", "2020-00-00 00:00:00.1", "2021-13-01 00:00:00", "2021-00-45 00:00:00",
+	"2021-02-30 10:11:12.1234567", "2021-02-30 10:11:12.", "2021-02-30 10:11:12,5", "2021-02-30  10:11:12", "2021-02-30 24:00:00", "2021-02-30 10:60:00", "2021-02-30 10:11:60", "2021-02-30 1:11:12", "2021-02-3 10:11:12", "2021-02-30T10:11:12", "2020-01-02 03:04:05.1", "2020-01-02 03:04:05.12", "2020-01-02 03:04:05.123",
 	"2020-01-02 03:04:05.1234", "2020-01-02 03:04:05.12345", "2020-01-02 03:04:05.123456", "2020-01-02 03:04:05.000001", "2020-01-02 03:04:05.100000", "2020-01-02 03:04:05.000000",
 	"2020-01-02 03:04:05.1234567", "2020-01-02 03:04:05.12345678", "2020-01-02 03:04:05.123456789", "2020-01-02 03:04:05.1234567899", "2020-01-02 03:04:05.12345678901234567890",
 	"2020-01-02 03:04:05.9999999", "2020-00-00 00:00:00", "2020-01-00 00:00:00", "2021-02-29 00:00:00", "2020-02-29 23:59:59", "2020-01-02 24:00:00", "2020-01-02 23:60:00", "2020-01-02 23:59:60",
@@ -360,18 +432,25 @@ func c13RandDate(g *core.Gen) string {
 	y := core.Pick(g, []int{0, 1, 999, 1000, 1970, 2000, 2020, 2021, 2024, 2100, 9999, g.Intn(10000)})
 	m := 1 + g.Intn(12)
 	d := 1 + g.Intn(28)
-	switch g.Intn(8) {
+	switch g.Intn(10) {
 	case 0:
 		d = 29 + g.Intn(3)
 	case 1:
 		m = 0
 	case 2:
 		d = 0
+	case 3:
+		y, m, d = 0, 0, 0
+	case 4:
+		m, d = 0, 0
 	}
 	return fmt.Sprintf("%04d-%02d-%02d", y, m, d)
 }
 
 func c13RandClock(g *core.Gen) string {
+	if g.Intn(4) == 0 {
+		return "00:00:00"
+	}
 	return fmt.Sprintf("%02d:%02d:%02d", g.Intn(24), g.Intn(60), g.Intn(60))
 }
 
@@ -520,13 +599,9 @@ type c13Col struct {
 	flag uint16
 }
 
-// c13Emit builds the request line: the float table is computed from the final
-// row bytes (walked with the repository's own cell reader).
-func c13Emit(g *core.Gen, cols []c13Col, rows [][]byte, tags ...string) {
-	fs := make([]core.Sexp, len(cols))
-	for i, c := range cols {
-		fs[i] = core.L(core.U(uint64(c.t)), core.U(uint64(c.flag)))
-	}
+// c13FloatTable computes the graph of the opaque float functions on the float
+// cells of the rows (walked with the repository's own cell reader).
+func c13FloatTable(cols []c13Col, rows [][]byte) []core.Sexp {
 	seen := map[string]bool{}
 	var ft []core.Sexp
 	for _, r := range rows {
@@ -549,11 +624,38 @@ func c13Emit(g *core.Gen, cols []c13Col, rows [][]byte, tags ...string) {
 			}
 		}
 	}
-	xs := []core.Sexp{core.A("rows"), core.L(fs...), core.L(ft...)}
+	return ft
+}
+
+// c13Emit builds the request line: the float table is computed from the final
+// row bytes.
+func c13Emit(g *core.Gen, cols []c13Col, rows [][]byte, tags ...string) {
+	fs := make([]core.Sexp, len(cols))
+	for i, c := range cols {
+		fs[i] = core.L(core.U(uint64(c.t)), core.U(uint64(c.flag)))
+	}
+	xs := []core.Sexp{core.A("rows"), core.L(fs...), core.L(c13FloatTable(cols, rows)...)}
 	for _, r := range rows {
 		xs = append(xs, core.Hex(r))
 	}
 	g.Emit(core.L(xs...), tags...)
+}
+
+// c13AppendCell appends a text-protocol cell as a MySQL server encodes it (an
+// encoder of the harness' own: the inputs must not depend on the code under test).
+func c13AppendCell(row, c []byte) []byte {
+	n := uint64(len(c))
+	switch {
+	case n < 251:
+		row = append(row, byte(n))
+	case n < 1<<16:
+		row = append(row, 0xfc, byte(n), byte(n>>8))
+	case n < 1<<24:
+		row = append(row, 0xfd, byte(n), byte(n>>8), byte(n>>16))
+	default:
+		row = append(row, 0xfe, byte(n), byte(n>>8), byte(n>>16), byte(n>>24), byte(n>>32), byte(n>>40), byte(n>>48), byte(n>>56))
+	}
+	return append(row, c...)
 }
 
 func c13Row(cells [][]byte) []byte {
@@ -562,7 +664,7 @@ func c13Row(cells [][]byte) []byte {
 		if c == nil {
 			row = append(row, 0xfb)
 		} else {
-			row = mysql.AppendLenEncStringBytes(row, c)
+			row = c13AppendCell(row, c)
 		}
 	}
 	return row
@@ -580,18 +682,37 @@ func genC13(g *core.Gen) {
 			c13Emit(g, []c13Col{{t, flag}, sentinel}, [][]byte{c13Row([][]byte{nil, []byte("-7")})}, "boundary-null", "type:"+c13TypeName(t))
 		}
 	}
-	// 2. long strings
+	// 2. byte strings of every size class, NUL and non-UTF-8 bytes included, in every byte-string type
+	bytesTypes := []uint8{0x0f, 0x10, 0xf5, 0xf7, 0xf8, 0xf9, 0xfa, 0xfb, 0xfc, 0xfd, 0xfe, 0xff}
+	for _, t := range bytesTypes {
+		for _, n := range []int{0, 1, 250, 251, 252, 255, 256} {
+			c13Emit(g, []c13Col{{t, c13Flag(g)}, sentinel}, [][]byte{c13Row([][]byte{c13PatCell(n), []byte("7")})}, "size-class", "type:"+c13TypeName(t))
+		}
+	}
 	longs := []int{65535, 65536}
+	longTypes := []uint8{0xfc, 0xfd, core.Pick(g, bytesTypes), core.Pick(g, bytesTypes)}
 	if g.Tier != "quick" {
 		longs = append(longs, 65537, 70000, 300000)
+		longTypes = bytesTypes
 	}
-	for _, n := range longs {
-		b := make([]byte, n)
-		for i := range b {
-			b[i] = byte('a' + i%26)
+	for _, t := range longTypes {
+		for _, n := range longs {
+			c13Emit(g, []c13Col{{t, 0}, sentinel}, [][]byte{c13Row([][]byte{c13PatCell(n), []byte("7")})}, "long-string")
 		}
-		t := core.Pick(g, []uint8{0xfc, 0xfd, 0xfb, 0xf5})
-		c13Emit(g, []c13Col{{t, 0}, sentinel}, [][]byte{c13Row([][]byte{b, []byte("7")})}, "long-string")
+	}
+	// 2b. the same through theorem big_cell_row (no list of N bytes in the driver): up to the 16 MiB class
+	bigs := []int{0, 1, 250, 251, 252, 65535, 65536, 65537, 16777215, 16777216}
+	if g.Tier != "quick" {
+		bigs = append(bigs, 16777217, 20000000, 33554432)
+	}
+	for _, n := range bigs {
+		ts := []uint8{0xfc, core.Pick(g, bytesTypes)}
+		if n < 1<<20 || g.Tier != "quick" {
+			ts = bytesTypes
+		}
+		for _, t := range ts {
+			g.Emit(core.L(core.A("big"), core.U(uint64(t)), core.U(uint64(c13Flag(g))), core.U(uint64(n))), "big", "type:"+c13TypeName(t))
+		}
 	}
 	// 3. NULL in every position, for column counts around the bitmap byte boundaries
 	for _, n := range []int{0, 1, 2, 5, 6, 7, 8, 13, 14, 15, 16, 22, 23} {
@@ -685,6 +806,8 @@ func genC13(g *core.Gen) {
 		t := uint8(g.Intn(256))
 		g.Emit(core.L(core.A("abv"), core.U(uint64(t)), core.Pick(g, govals)), "abv", "abv-random-type")
 	}
+	// 6. whole COM_STMT_EXECUTE results over the wire
+	genC13Wire(g)
 }
 
 // c13Mangle damages a well-formed text row.
